@@ -86,7 +86,7 @@ class CoreMixin:
     def init_core(self, ctab):
         self.ctab = ctab
         self.decls = []           # declaration lines, in order
-        self.declared = set()
+        self.declared = {"obj_dict"}      # declared in the prelude
         self.obls = []
         self.globals_assumed = []  # facts about named constants (asserted in every VC)
         self.catch_stack = []
@@ -240,6 +240,8 @@ class CoreMixin:
 
     def named_object(self, o):
         """A pre-existing live object used as a constant (e.g. UNBOUND_PROPERTY, a function)."""
+        if isinstance(o, (dict, list, set, frozenset, tuple)):
+            raise OutOfSubset(f"container constant with non-encodable members ({type(o).__name__})")
         k = id(o)
         if k not in self.ctab.named_objs:
             self.ctab.named_objs[k] = (len(self.ctab.named_objs) + 1, o)
